@@ -216,6 +216,15 @@ def check(run, model, tier):
                 return len(ds) == 1 and len(ldefs_.get(a.id, [])) == 1 and norm(ds[0]).endswith('.queue_reflection()')
             return norm(a).endswith('.queue_reflection()')
         ok = rings == ['full.spy', 'rtc.spy'] and all(c.args and reflection_arg(c.args[0]) for c in apps)
+        if ok:
+            # "together": the two appends happen under the same conditions
+            from sa.boolflow import must_atoms as _ma2
+            gi_ = cfg_of(inn)
+            nodes_ = [next((n_ for n_ in gi_.nodes if n_.kind not in ('entry', 'exit', 'xexit', 'def') and any(x_ is c for x_ in n_.walk())), None) for c in apps]
+            if None in nodes_:
+                raise AnalysisError('%s: reflection appends not found in the CFG' % inn.qualname)
+            at_ = [_ma2(gi_, n_, inn.node, params=inn.params) for n_ in nodes_]
+            ok = at_[0] == at_[1]
         run.inst('SPY.markers', inn, 'queue reflection goes to step log and full log together', ok, 'reflection written to %s' % rings, obligation=True)
     # ---- accumulate
     n_ext = 0
